@@ -297,6 +297,21 @@ func EnumCases() []*Case {
 		f.Add(obj("Foo", &Field{Name: "reason", T: RefTo(e, "")}))
 		out = append(out, &Case{ID: "enum:unspecified-in-names:" + shape, Family: "enums", Coord: "enums|unspecified-in-names", P: &Program{Files: []*File{f}}})
 	}
+	// a zero option written by the author, with a description of its own; the next option has none
+	for _, where := range []string{"top", "inline"} {
+		f := file("t/v1", "a")
+		e := enumD("Kind", "UNSPECIFIED", "ONE", "TWO")
+		e.Options[0].Desc = "nothing was chosen"
+		e.Options[2].Desc = "the second one"
+		if where == "top" {
+			f.Add(e)
+			f.Add(obj("Foo", fld("kind", RefTo(e, ""))))
+		} else {
+			e.Name = ""
+			f.Add(obj("Foo", fld("kind", InlineOf(e))))
+		}
+		out = append(out, &Case{ID: "enum:described-zero-option:" + where, Family: "enums", Coord: "enums|described-zero-option", P: &Program{Files: []*File{f}}})
+	}
 	return out
 }
 
@@ -1358,6 +1373,27 @@ func DeterminismBundles() []*Case {
 		c.Add(enumD("Kind", "A", "B"))
 		c.Add(obj("Baz", fld("kind", RefTo(c.Decls[0].(*Decl), ""))))
 		add("same-name-in-sub-directory", a, b, c, sub)
+	}
+	{ // a versioned package below another local package's directory
+		x := file("a/v1", "x")
+		outer := obj("Outer", fld("name", T(TString)))
+		x.Add(outer)
+		y := file("a/v1/b/v2", "y")
+		y.Imports = []Import{{Pkg: "a.v1", Alias: "up"}}
+		y.Add(obj("Inner", fld("outer", RefTo(outer, "up")), fld("n", T(TInt32))))
+		y.Add(enumD("Mode", "ON", "OFF"))
+		add("nested-versioned-package", x, y)
+	}
+	{ // two imports that imply the same short name, used through that name; the type exists in both
+		fo := file("foo/common/v1", "t")
+		fo.Add(obj("Money", fld("amount", T(TDecimal))))
+		ba := file("bar/common/v1", "t")
+		money := obj("Money", fld("cents", T(TInt64)))
+		ba.Add(money)
+		m := file("m/v1", "main")
+		m.Imports = []Import{{Pkg: "foo.common.v1"}, {Pkg: "bar.common.v1"}}
+		m.Add(obj("Account", fld("balance", RefTo(money, "common")), fld("history", ArrayOf(RefTo(money, "common")))))
+		add("same-short-import-name", m, fo, ba)
 	}
 	{ // nested inline types
 		f := file("n/v1", "nest")
